@@ -19,13 +19,18 @@ pub const SHARDS: u64 = 16;
 pub struct Failure {
     pub msg: String,
     pub case: Value,
+    /// the harness contradicts itself (generator vs recogniser, oracle vs Boolean model): exit 2, never a violation
+    pub harness: bool,
 }
 
 impl Failure {
     pub fn new(msg: impl Into<String>, case: Value) -> Failure {
+        let msg: String = msg.into();
+        let harness = msg.starts_with("harness inconsistency");
         Failure {
-            msg: msg.into(),
+            msg,
             case,
+            harness,
         }
     }
 }
@@ -818,6 +823,17 @@ pub fn run_prop(p: &Prop, cfg: &RunCfg, only_sub: Option<&str>) -> i32 {
         }
     }
 
+    let harness_bugs: Vec<&(String, Failure, Option<Vec<u32>>)> = violations.iter().filter(|v| v.1.harness).collect();
+    if !harness_bugs.is_empty() {
+        for (sub, f, choices) in &harness_bugs {
+            let path = write_replay(p.id, sub, cfg.seed, choices.as_deref(), f);
+            eprintln!("HARNESS-INCONSISTENCY property={} sub={} replay={}", p.id, sub, path);
+            eprintln!("  {}", f.msg);
+            eprintln!("  case: {}", f.case);
+        }
+        eprintln!("{}: the harness contradicts itself; no verdict (exit 2)", p.id);
+        return 2;
+    }
     let mut vlines = vec![];
     for (sub, f, choices) in &violations {
         let path = write_replay(p.id, sub, cfg.seed, choices.as_deref(), f);
